@@ -255,3 +255,38 @@ SPECS["C12"]["queries"] += [
     c12m("rs_realloc_a3", "harness_realloc", "thorough", 3, 4, 1, timeout=3000),
     c12m("rs_malloc_a2_64", "harness_malloc", "thorough", 2, 6, 3, timeout=2400),
 ]
+
+
+def heapq(name, inst, n, tier, timeout=1200, **kw):
+    return Q(name, "c10_heap.c", tier=tier, defs={"INST": inst, "N": n}, unwind=n + 3, solver="kissat", timeout=timeout,
+             bounds="one heap_insert or heap_extract on an arbitrary heap of <= %d elements (%s), arbitrary timestamps incl. ties, flags, types, payload <= 2 bytes" % (n - 1, "q_elem / q_elem_is_before" if inst == 1 else "lp_msg* / msg_is_before"), **kw)
+
+
+SPECS["C10"] = dict(
+    level="model_checking",
+    encodes=["datatypes/heap.h:heap_insert", "heap_extract", "serial/serial.c:serial_simulation_init", "serial_simulation_run", "serial_simulation_fini", "ScheduleNewEvent_serial", "lp/msg.h:msg_is_before"],
+    assumptions=["heap induction: pre-state is any array satisfying the heap property; dynamic-array growth is cut (proved unreachable inside the bound)"],
+    outside=["heaps above the stated size (the sift loops are size-parametric, checked up to depth 3)"],
+    queries=[
+        heapq("heap_msg_n5", 2, 5, "quick", cost=5),
+        heapq("heap_msg_n7", 2, 7, "thorough", timeout=3000, replaces="heap_msg_n5"),
+    ],
+)
+SPECS["C15"] = dict(
+    level="model_checking",
+    encodes=["datatypes/msg_queue.c:msg_queue_insert", "msg_queue_extract", "msg_queue_time_peek", "msg_queue_insert_queued", "msg_queue_init", "datatypes/heap.h:heap_insert", "heap_extract"],
+    assumptions=["sequential rely/guarantee encoding: the thread under test is interrupted at every atomic operation by whole real operations of the other threads (CBMC refuses shared pointer writes under its thread encoding); cross interleavings of two multi-step operations are covered by the mover argument in DESIGN.md 2.4",
+                 "stub <stdatomic.h>: every atomic operation is one sequentially consistent step preceded by a yield point"],
+    outside=["more than 2 producers / 3 messages", "weak memory"],
+    queries=[
+        heapq("heap_q_n5", 1, 5, "quick", cost=5),
+        heapq("heap_q_n7", 1, 7, "thorough", timeout=3000, replaces="heap_q_n5"),
+    ],
+)
+
+SPECS["C15"]["queries"] += [
+    Q("consumer_m3", "c15_queue.c", func="harness_consumer", defs={"NM": 3}, stubdirs=["stubs_rg"], unwind=5, timeout=1200, cost=8,
+      bounds="consumer (2 rounds of peek + extract, then drain) with up to 3 messages inserted by producers at any of its atomic steps; arbitrary timestamps incl. ties, cancelled entries"),
+    Q("producer_m3", "c15_queue.c", func="harness_producer", defs={"NM": 3}, stubdirs=["stubs_rg"], unwind=5, timeout=1200, cost=7,
+      bounds="one insert interrupted between its load and each CAS attempt by up to 2 other inserts and one consumer extraction (CAS retries <= 4)"),
+]
